@@ -8,6 +8,8 @@ import H5.Model.Alphabetical
 import H5.Model.Whitespace
 import H5.Model.Infoset
 import Driver.TokOps
+import Driver.SpecOps
+import H5.Model.Walker
 open H5 H5.Wire
 
 def otok : R (Option Tok) := do
@@ -75,11 +77,18 @@ def handle (ws : List String) : String :=
     match run (list tok) rest with
     | some ts => "ok " ++ encToks (H5.Model.Whitespace.filter ts)
     | none => "bad-request"
+  | "walk" :: rest =>
+    match run tree rest with
+    | some t => encExcept encToks (H5.Model.Walker.walk t)
+    | none => "bad-request"
   | op :: rest =>
     if op.startsWith "xml:" then handleXml (op :: rest) else
     match handleTok (op :: rest) with
     | some r => r
-    | none => "bad-op"
+    | none =>
+      match handleSpec (op :: rest) with
+      | some r => r
+      | none => "bad-op"
   | _ => "bad-op"
 
 partial def loop (h : IO.FS.Stream) (out : IO.FS.Stream) : IO Unit := do
